@@ -256,6 +256,17 @@ def _pure_member_expr(t, pvars=frozenset()):
         return all(_pure_member_expr(x, pvars) for x in t[1:])
     if h == "idx":
         return _pure_member_expr(t[1], pvars) and _pure_member_expr(t[2], pvars)
+    if h == "call":
+        # a call inside the returned expression: the term is exactly what the same expression written inline would give
+        return (t[2] is None or _pure_member_expr(t[2], pvars)) and all(_pure_member_expr(a, pvars) for a in t[3])
+    return False
+
+
+def _mentions_call(t, qn):
+    if isinstance(t, tuple) and t and t[0] == "call" and t[1] == qn:
+        return True
+    if isinstance(t, tuple):
+        return any(_mentions_call(x, qn) for x in t if isinstance(x, tuple))
     return False
 
 
@@ -393,32 +404,27 @@ class Facts:
                         base = fn.kids(v["id"])
                         if base and fn.n(fn.strip(base[0]))["k"] == "CXXThisExpr":
                             GETTERS[fn.key] = v["m"]
-        # parameterless members whose body is `return <expression over this-members>;` are that expression (so extracting
-        # such an expression into a helper, or inlining the helper, leaves every term unchanged)
+        # Functions whose body is a single `return <expression>;` are that expression, with parameters and the receiver
+        # substituted (so extracting an expression into a helper, or inlining such a helper, leaves every term unchanged).
+        # Computed to a fix-point because the helpers may use one another.
         PURE_EXPRS.clear()
-        for _round in range(2):
-            for fn in self.functions.values():
-                if fn.key in GETTERS or fn.key in PURE_EXPRS:
-                    continue
-                if fn.cls and not fn.params and fn.body is not None and not fn.d.get("ctor") and not fn.d.get("virtual"):
-                    ks = fn.kids(fn.body)
-                    if len(ks) == 1 and fn.n(ks[0])["k"] == "ReturnStmt" and "value" in fn.n(ks[0]):
-                        t = fn.term(fn.n(ks[0])["value"])
-                        if _pure_member_expr(t):
-                            PURE_EXPRS[fn.key] = t
-        # functions with parameters whose body is `return <expression over parameters, constants and this-members>;`
         PURE_FUNCS.clear()
-        for _round in range(3):
+        for _round in range(5):
             for fn in self.functions.values():
-                if fn.key in PURE_FUNCS or not fn.params or fn.body is None or fn.d.get("ctor") or fn.d.get("virtual") or fn.d.get("lambda"):
+                if fn.key in GETTERS or not fn.cfg or fn.body is None or fn.d.get("ctor") or fn.d.get("virtual") or fn.d.get("lambda"):
                     continue
                 if not fn.file.startswith(self.repo):
                     continue
                 ks = fn.kids(fn.body)
-                if len(ks) == 1 and fn.n(ks[0])["k"] == "ReturnStmt" and "value" in fn.n(ks[0]):
-                    t = fn.term(fn.n(ks[0])["value"])
+                if not (len(ks) == 1 and fn.n(ks[0])["k"] == "ReturnStmt" and "value" in fn.n(ks[0])):
+                    continue
+                t = fn.term(fn.n(ks[0])["value"])
+                if not fn.params:
+                    if fn.cls and _pure_member_expr(t):
+                        PURE_EXPRS[fn.key] = t
+                else:
                     pvars = {("var", p["n"], p["d"]) for p in fn.params}
-                    if _pure_member_expr(t, pvars):
+                    if _pure_member_expr(t, pvars) and not _mentions_call(t, fn.qn):
                         PURE_FUNCS[fn.key] = ([("var", p["n"], p["d"]) for p in fn.params], t)
         # override relation
         self.overriders = {}
@@ -486,6 +492,22 @@ class Facts:
                             if isinstance(e, dict) and (fn.cls, e.get("init_field")) in renames:
                                 e["init_field"] = renames[(fn.cls, e["init_field"])]
         return {"%s::%s" % k: v for k, v in renames.items()}
+
+    def call_value(self, qn, obj, args, pred=None):
+        """The value term a call `obj.qn(args)` yields under the current tree (single-return helpers are their expression)."""
+        args = tuple(args)
+        if not args:
+            return self.method_value(qn, obj if obj is not None else ("this",))
+        for fn in self.by_qn.get(qn, []):
+            if len(fn.params) != len(args) or (pred is not None and not pred(fn)):
+                continue
+            pf = PURE_FUNCS.get(fn.key)
+            if pf is not None:
+                body = _subst_vars(pf[1], dict(zip(pf[0], args)))
+                if obj is not None and obj != ("this",):
+                    body = _subst_this(body, obj)
+                return body
+        return ("call", qn, obj, args)
 
     def method_value(self, qn, obj=("this",)):
         """The value term a call `obj.qn()` of a parameterless method yields under the current tree: the member it returns
